@@ -36,7 +36,8 @@ func (s *Server) serveListKeys(rw http.ResponseWriter, req *http.Request) error 
 				continue
 			}
 		}
-		if !keyConf.Hide && userInfo.Allowed(keyConf) {
+		// a key without a token cannot be used (GetKey refuses it), so don't list it
+		if !keyConf.Hide && keyConf.Token != "" && userInfo.Allowed(keyConf) {
 			keys = append(keys, key)
 		}
 	}
